@@ -333,9 +333,15 @@ func (r *runner) peer(st Step) {
 		}
 		abs = append(abs, a)
 	}
-	txt := parts[0]
-	if st.Arr || len(parts) > 1 {
+	txt := "[]" // (no items: an array without members - well-formed JSON, nothing in it for anybody)
+	if len(parts) > 0 {
+		txt = parts[0]
+	}
+	if (st.Arr && len(parts) > 0) || len(parts) > 1 {
 		txt = "[" + strings.Join(parts, ",") + "]"
+	}
+	if abs == nil {
+		abs = []any{}
 	}
 	// insignificant JSON whitespace in front of the record (space, tab, LF, CR) changes nothing
 	txt = []string{"", " ", "\n", "\r\n", "\t", " \n ", "\r", "\n\n"}[r.nrec%8] + txt
